@@ -371,6 +371,9 @@ pub struct SemTypeContext {
     pub list_runtype_ref_memo: BTreeMap<RuntypeUUID, usize>,
     pub map_runtype_ref_memo: BTreeMap<RuntypeUUID, usize>,
     pub set_runtype_ref_memo: BTreeMap<RuntypeUUID, usize>,
+
+    /// emptiness checks that are still running (their memo entry is `Undefined`)
+    pub pending_empty_checks: usize,
 }
 impl Default for SemTypeContext {
     fn default() -> Self {
@@ -427,6 +430,7 @@ impl SemTypeContext {
             list_runtype_ref_memo: BTreeMap::new(),
             map_runtype_ref_memo: BTreeMap::new(),
             set_runtype_ref_memo: BTreeMap::new(),
+            pending_empty_checks: 0,
         }
     }
     pub fn number_const(value: NumberRepresentationOrFormat) -> SemType {
